@@ -130,5 +130,187 @@ def acceptsTy (st : Style) (re : Regex) : Nat → IRDefs → Ty → Json → Tri
       | none => .reject
     | .opt inner => if v.isNull then .accept else acceptsTy st re g defs inner v
     | .union ts => Tri.any (ts.map (fun u => acceptsTy st re g defs u v))
+    | .tagged prop branches =>
+      -- the tag is read from the input (by wire name), must be a string among the tag literals of one
+      -- alternative; only that alternative — its class as patched by the discriminator pass — is tried
+      match v with
+      | .obj kvs =>
+        match kvs.lookup prop with
+        | some (.str tag) =>
+          match branches.find? (fun b => b.1.any (fun a => a.matches (.str tag))) with
+          | some b =>
+            match defs.lookup b.2 with
+            | some d => acceptsTy st re g defs (patchTag prop b.1 d) v
+            | none => .reject
+          | none => .reject
+        | _ => .reject
+      | _ => .reject
+
+end Dcg.Sem.Pyd
+
+/-! ### serialisation by wire name: `model_dump(by_alias=True, exclude_unset=True)` (v2),
+`.json(by_alias=True, exclude_unset=True)` (v1-style)
+
+AUTHORED, TRUSTED like `acceptsTy`; compared with the real dumps on every run (vlib/props/c03.py).
+What is modelled: members are written under their wire (JSON) name; a member that was not given is
+not written (`exclude_unset`); a member given as `null` is written as `null`; lists, dicts, root
+models, references and `Optional` are transparent; a union / tagged union serialises through the
+alternative that validation chose (`chooseAlt`: the first alternative that accepts without
+coercion, else the first that does not reject); a member the class does not declare is DROPPED when
+the class has pydantic's default `extra` (ignore), kept under `allow` (`forbid` never gets here).
+Scalars are written back as given (lax conversions are `laxZone`, outside every statement).
+JSON objects are compared as maps: the order of members is not modelled (the real dump follows the
+order of the class, the harness compares canonically). -/
+
+namespace Dcg.Sem.Pyd
+open Dcg.Sem Dcg.Model.Constraints Dcg.Model.Translate
+
+/-- result of looking a member up in a class and its base classes -/
+inductive Found where
+  | found (t : Ty)
+  | absent
+  | unknown
+  deriving Inhabited
+
+/-- the type under which member `k` of class `t` is declared: own fields first, then the base classes
+(through the definitions; out of fuel = `unknown`) -/
+def findField : Nat → IRDefs → Ty → List Char → Found
+  | 0, _, _, _ => .unknown
+  | g + 1, defs, t, k =>
+    match t with
+    | .model fields _ =>
+      match fields.lookup k with
+      | some f => .found f.2.2
+      | none => .absent
+    | .derived bases fields _ =>
+      match fields.lookup k with
+      | some f => .found f.2.2
+      | none =>
+        bases.foldr (fun b acc =>
+          match defs.lookup b with
+          | some d =>
+            match findField g defs d k with
+            | .found ty => .found ty
+            | .unknown => .unknown
+            | .absent => acc
+          | none => acc) .absent
+    | _ => .absent
+
+/-- `extra` of a class -/
+def extraOfTy : Ty → Extra
+  | .model _ e => e
+  | .derived _ _ e => e
+  | _ => .unset
+
+/-- the alternative of a `Union` through which a value is validated and serialised -/
+def chooseAlt (st : Style) (re : Regex) (g : Nat) (defs : IRDefs) (ts : List Ty) (v : Json) : Option Ty :=
+  match ts.find? (fun u => acceptsTy st re g defs u v == .accept) with
+  | some u => some u
+  | none => ts.find? (fun u => acceptsTy st re g defs u v != .reject)
+
+/-- the (patched) class a tagged union selects for an object, as in `acceptsTy` -/
+def chooseTagged (defs : IRDefs) (prop : List Char) (branches : List (List Atom × List Char)) (v : Json) :
+    Option Ty :=
+  match v with
+  | .obj kvs =>
+    match kvs.lookup prop with
+    | some (.str tag) =>
+      match branches.find? (fun b => b.1.any (fun a => a.matches (.str tag))) with
+      | some b => (defs.lookup b.2).map (patchTag prop b.1)
+      | none => none
+    | _ => none
+  | _ => none
+
+/-- what the dump of the validated value is (`g` = fuel; out of fuel the value is left as it is) -/
+def dump (st : Style) (re : Regex) : Nat → IRDefs → Ty → Json → Json
+  | 0, _, _, v => v
+  | g + 1, defs, t, v =>
+    match t with
+    | .list item =>
+      match v with
+      | .arr xs => .arr (xs.map (fun x => dump st re g defs item x))
+      | _ => v
+    | .dict val =>
+      match v with
+      | .obj kvs => .obj (kvs.map (fun kv => (kv.1, dump st re g defs val kv.2)))
+      | _ => v
+    | .model _ _ =>
+      match v with
+      | .obj kvs => .obj (kvs.filterMap (fun kv =>
+          match findField (g + 1) defs t kv.1 with
+          | .found ty => some (kv.1, dump st re g defs ty kv.2)
+          | .unknown => some kv
+          | .absent => if extraOfTy t == .unset then none else some kv))
+      | _ => v
+    | .derived _ _ _ =>
+      match v with
+      | .obj kvs => .obj (kvs.filterMap (fun kv =>
+          match findField (g + 1) defs t kv.1 with
+          | .found ty => some (kv.1, dump st re g defs ty kv.2)
+          | .unknown => some kv
+          | .absent => if extraOfTy t == .unset then none else some kv))
+      | _ => v
+    | .root _ inner => dump st re g defs inner v
+    | .ref n =>
+      match defs.lookup n with
+      | some d => dump st re g defs d v
+      | none => v
+    | .opt inner => dump st re g defs inner v
+    | .union ts =>
+      match chooseAlt st re g defs ts v with
+      | some u => dump st re g defs u v
+      | none => v
+    | .tagged prop branches =>
+      match chooseTagged defs prop branches v with
+      | some d => dump st re g defs d v
+      | none => v
+    | _ => v
+
+/-- "the instance has no undeclared members", read along the path the dump takes: wherever an object
+meets a class with the default `extra` (ignore), every member of the object is declared by the class
+or one of its bases. Decidable. -/
+def declared (st : Style) (re : Regex) : Nat → IRDefs → Ty → Json → Bool
+  | 0, _, _, _ => true
+  | g + 1, defs, t, v =>
+    match t with
+    | .list item =>
+      match v with
+      | .arr xs => xs.all (fun x => declared st re g defs item x)
+      | _ => true
+    | .dict val =>
+      match v with
+      | .obj kvs => kvs.all (fun kv => declared st re g defs val kv.2)
+      | _ => true
+    | .model _ _ =>
+      match v with
+      | .obj kvs => kvs.all (fun kv =>
+          match findField (g + 1) defs t kv.1 with
+          | .found ty => declared st re g defs ty kv.2
+          | .unknown => true
+          | .absent => extraOfTy t != .unset)
+      | _ => true
+    | .derived _ _ _ =>
+      match v with
+      | .obj kvs => kvs.all (fun kv =>
+          match findField (g + 1) defs t kv.1 with
+          | .found ty => declared st re g defs ty kv.2
+          | .unknown => true
+          | .absent => extraOfTy t != .unset)
+      | _ => true
+    | .root _ inner => declared st re g defs inner v
+    | .ref n =>
+      match defs.lookup n with
+      | some d => declared st re g defs d v
+      | none => true
+    | .opt inner => declared st re g defs inner v
+    | .union ts =>
+      match chooseAlt st re g defs ts v with
+      | some u => declared st re g defs u v
+      | none => true
+    | .tagged prop branches =>
+      match chooseTagged defs prop branches v with
+      | some d => declared st re g defs d v
+      | none => true
+    | _ => true
 
 end Dcg.Sem.Pyd
